@@ -967,6 +967,33 @@ func runAddFlag(c *core.Ctx) {
 			}
 		}
 	}
+	// the registry test moved into the insertion helper: its refusals then stand for both causes —
+	// some way to 'false' tests a registry hit, some other way the stored version
+	if nReg == 0 && nRef >= 1 && a.ins != a.add {
+		if fps, okf := an.ResultPathsDeep(a.ins, 0, false); okf {
+			reg, ord := 0, 0
+			for _, fp := range fps {
+				isReg, isOrd := false, false
+				for _, cd := range fp.Conds {
+					k := condKey(an.NormCond(cd))
+					if strings.Contains(k, ".deleted[") && (strings.HasPrefix(k, "const:nil != ") || strings.HasSuffix(k, " != const:nil")) {
+						isReg = true
+					}
+					if strings.Contains(k, ".CreatedAt <= recv.evs[") && strings.HasSuffix(k, "].CreatedAt") {
+						isOrd = true
+					}
+				}
+				if isReg {
+					reg++
+				} else if isOrd {
+					ord++
+				}
+			}
+			if reg >= 1 && ord >= 1 && reg+ord == len(fps) {
+				nReg += reg
+			}
+		}
+	}
 	c.Check(nReg >= 1 && nRef >= 1 && nTrue >= 1, nil, fname(c, add), "return-false", P.Pos(add.Pos()),
 		fmt.Sprintf("%d false paths (%d registry hit, %d refused insertion), %d true paths", nFalse, nReg, nRef, nTrue), fmt.Sprintf("expected 'not new' both for suppression and for a refused insertion; found %d registry paths, %d refusal paths, %d true paths", nReg, nRef, nTrue))
 }
